@@ -32,7 +32,8 @@ LIB_PAIRS = [("Feet", "Inches", Fraction(12), Fraction(1)), ("Meters", "Feet", F
              ("Minutes", "Days", Fraction(1), Fraction(1440))]
 REP_PAIRS_Q = [("int32_t", "int32_t"), ("int64_t", "int64_t"), ("int16_t", "int32_t"), ("int32_t", "int64_t"),
                ("uint32_t", "uint32_t"), ("uint64_t", "uint64_t"), ("uint16_t", "uint32_t"), ("int16_t", "int16_t"),
-               ("int64_t", "int16_t"), ("uint8_t", "uint64_t")]
+               ("int64_t", "int16_t"), ("uint8_t", "uint64_t"),
+               ("long long", "int32_t"), ("unsigned long long", "unsigned long long")]     # distinct types of int64_t / uint64_t width
 REP_PAIRS_T = REP_PAIRS_Q + [("int8_t", "int8_t"), ("int8_t", "int32_t"), ("uint8_t", "uint8_t"), ("uint16_t", "uint16_t"),
                              ("uint32_t", "uint64_t"), ("uint64_t", "uint16_t"), ("int32_t", "int16_t"), ("int8_t", "int64_t")]
 CMPS = [("eq", "=="), ("ne", "!="), ("lt", "<"), ("le", "<="), ("gt", ">"), ("ge", ">=")]
@@ -73,7 +74,7 @@ class C08(F.Check):
                 if 2147 * k1 > hi or 2147 * k2 > hi:
                     continue
                 pr = F.promoted(cr)
-                tag = "%d_%s_%s" % (ui, r1.replace("_t", ""), r2.replace("_t", ""))
+                tag = "%d_%s_%s" % (ui, r1.replace("_t", "").replace(" ", ""), r2.replace("_t", "").replace(" ", ""))
                 key = {"U1|U2": lab, "k1": k1, "k2": k2, "R1": r1, "R2": r2, "common_rep": cr}
                 a = "make_quantity<%s>(x)" % u1
                 b = "make_quantity<%s>(y)" % u2
